@@ -55,11 +55,13 @@ time_parse(const char *str, time_t *res, const struct environment *env)
 	end = timeparse(str, &tm);
 	if (end == NULL)
 		return 1;
-	/* Let mktime(3) figure out if DST is in effect. */
-	tm.tm_isdst = -1;
-	tim = mktime(&tm);
+	/*
+	 * The broken-down time is relative to the time zone given in the
+	 * timestamp, the local time zone must not be taken into account.
+	 */
+	tim = timegm(&tm);
 	if (tim == -1) {
-		warnc(EINVAL, "mktime: %s", str);
+		warnc(EINVAL, "timegm: %s", str);
 		return 1;
 	}
 
@@ -67,7 +69,7 @@ time_parse(const char *str, time_t *res, const struct environment *env)
 	if (tzparse(end, &tz, env))
 		return 1;
 
-	*res = tim - tz + env->ev_tz.t_offset;
+	*res = tim - tz;
 	return 0;
 }
 
